@@ -40,6 +40,18 @@ Example extrude_closed_hyp_satisfiable :
   forall a b, tcoef [(0, 1, 2)] a b = ccoef (contours zid 0 [3%nat]) a b.
 Proof. intros a b. unfold tcoef. cbn -[ecoef]. Lia.lia. Qed.
 
+(* The 2x2 map Extrude applies to the contour at each division (entries
+   regenerated from the source statements on every run) is the documented
+   "scale is applied after twist": rotate (x,y) by phi, then scale by
+   (sx, sy) = lerp(1, scaleTop, alpha) — for all symbolic sx sy c s. *)
+Theorem extrude_scale_after_twist :
+  forall sx sy c s x y : Z,
+    (extrude_m_xx sx sy c s * x + extrude_m_xy sx sy c s * y,
+     extrude_m_yx sx sy c s * x + extrude_m_yy sx sy c s * y) =
+    (sx * (c * x - s * y), sy * (s * x + c * y)).
+Proof. exact extrude_map_l. Qed.
+Print Assumptions extrude_scale_after_twist.
+
 (* Revolve, side triangles (src/constructors.cpp:362-414), for every list of
    clipped polygons given as flags (x > 0 / x == 0), every nDivisions >= 1,
    full or partial revolution: indices < vertPos.size(); the boundary chain is
